@@ -494,7 +494,7 @@ def generic_main(prop, module, level, cases, bound, case_bounds, rule, assumptio
     import sys
 
     from mc import runner
-    from mc.explore import Explorer
+    from mc.explore import Explorer, run_iterated
 
     flt = os.environ.get("VERIF_CASE_FILTER")  # debugging aid: substring of the case's JSON
     if flt:
@@ -505,8 +505,10 @@ def generic_main(prop, module, level, cases, bound, case_bounds, rule, assumptio
         cases = [cases[i] for i in keep]
         print(f"[{prop}] VERIF_CASE_FILTER keeps {len(cases)} cases (debug run, evidence not representative)")
     rep = runner.Report(prop, args.tier, level, runner.seed())
+    top = max([bound] + list(case_bounds.values()))
+    cap = args.time_cap or time_cap
     with Explorer(module.__name__, cases, workers=args.workers, seed=runner.seed()) as exp:
-        stats, completed, levels = exp.run(max([bound] + list(case_bounds.values())), time_cap=args.time_cap or time_cap, case_bounds=case_bounds)
+        stats, completed, levels = run_iterated(exp, top, cap, case_bounds, bound)
     runner.e1_report(rep, module, cases, stats, completed, levels, bound,
                      samples=samples or [cases[0], cases[len(cases) // 2], cases[-1]], extra=extra)
     rep.coverage["rule"] = rule
